@@ -12,7 +12,7 @@
    reachable from a shared value, borrowed inputs never written, distinct values own their storage), a
    trusted syntactic analysis; and sequential consistency of race-free executions is the Go memory
    model's DRF-SC guarantee (assumed).  Only property theorems, closed by [exact]. *)
-From Coq Require Import List Arith Bool.
+From Coq Require Import List Arith Bool ZArith.
 From Mamba Require Import Effects.Sched.
 Import ListNotations.
 
@@ -132,3 +132,9 @@ Proof.
     apply Forall_nil.
   - vm_compute. repeat split; discriminate.
 Qed.
+
+(* Why Find / Sets / SmallestRep on a SHARED disjoint.Set are outside the discipline (a finding recorded in
+   notes/C19.md, not a defect of C19: the property speaks of read-only queries): Find writes its receiver. *)
+Example C19_find_writes_its_receiver :
+  exists ds x d r, Disjoint.Model.find ds x = Some (d, r) /\ d <> ds.
+Proof. exists [1; 2; -1]%Z, 0, [2; 2; -1]%Z, 2. split; [vm_compute; reflexivity|discriminate]. Qed.
